@@ -209,7 +209,13 @@ class VItemL(_Item):
 
 @yaml_tag(eager=True)
 class VItemE(_Item):
-    pass
+    """Eagerly evaluated: its arguments must be complete when the constructor runs, so it
+    keeps a snapshot of what it saw at that moment"""
+
+    def __init__(self, *args, **kwargs):
+        import copy
+
+        super().__init__(*copy.deepcopy(args), **copy.deepcopy(kwargs))
 
 
 PIPELINE_CLASSES = (
